@@ -107,6 +107,8 @@ def run(check):
     names = sorted(shapes)
     stats = {"points_total": 0, "points_hit": 0, "single_site_plans": 0, "random_plans": 0, "plans_that_delayed": 0, "wrong_results": 0}
     with harness.Runner() as rn:
+        if not rn.hang_oracle_works():
+            check.fail_broken("the hang oracle (Go runtime deadlock report) does not fire in this build")
         stats["points_total"] = len(rn.points)
         rec_items = []
         for n in names:
